@@ -125,6 +125,23 @@ GroupOf(kind, b, g) ==
 Kinds == {"dense", "ways", "rels", "empty"}
 KindSeqs(maxg) == UNION {[1 .. n -> Kinds] : n \in 0 .. maxg}          \* 5, 21, 85 group sequences for maxg = 1, 2, 3
 
+\* files that are NOT sorted by type (the format does not ask for it) with more blocks than the decoding pipeline can
+\* hold in flight (about 10 + 2 * procs): ways / relations before and between many small node blocks
+NUnsorted == 45
+UnsortedBlockKinds(k) ==
+  CASE k = 1 -> [i \in 1 .. NUnsorted |-> IF i = 1 THEN "ways" ELSE "dense"]
+    [] k = 2 -> [i \in 1 .. NUnsorted |-> IF i = 2 THEN "rels" ELSE "dense"]
+    [] k = 3 -> [i \in 1 .. NUnsorted |-> IF i = 1 THEN "mixed" ELSE "dense"]
+    [] k = 4 -> [i \in 1 .. NUnsorted |-> IF i % 4 = 2 THEN "ways" ELSE IF i % 4 = 0 THEN "rels" ELSE "dense"]
+    [] k = 5 -> [i \in 1 .. NUnsorted |-> IF i \in {1, 2, 3} THEN "rels" ELSE IF i \in {4, 5} THEN "ways" ELSE "dense"]
+UnsortedBlock(b, kind, seed) ==
+  LET d(g) == DenseG(b, g, [info |-> TRUE, cols |-> {"version", "changeset"}, kv |-> TRUE], <<1, 0>>)
+      w(g) == WaysG(b, g, <<WayO([info |-> TRUE, fields |-> {"changeset", "uid"}], 1, 2, "none", FALSE)>>)
+      r(g) == RelsG(b, g, <<RelO(NoInfo, 0, 1, FALSE)>>) IN
+  Block(b, DefaultParams, (b + seed) % 3 # 0, FALSE,
+        CASE kind = "dense" -> <<d(1)>> [] kind = "ways" -> <<w(1)>> [] kind = "rels" -> <<r(1)>> [] kind = "mixed" -> <<d(1), w(2), d(3)>>)
+UnsortedFile(k, seed) == File(DefaultHeader, [b \in 1 .. NUnsorted |-> UnsortedBlock(b, UnsortedBlockKinds(k)[b], seed)])
+
 FamShapes(fam, full, seed) ==
   CASE \* two consecutive dense blocks on the same decoder: (A, B) over the DenseInfo-column / keys_vals lattice;
        \* quick: every A against every "edge" B (nothing / one column / all but one / all)
@@ -156,6 +173,8 @@ FamShapes(fam, full, seed) ==
          \cup (IF full THEN {<<3, s[1], s[2], s[3]>> : s \in k2 \X k1 \X k2} ELSE {})
        \* header block: every subset of its optional fields
     [] fam = "header"      -> {<<f, z, r>> : f \in [1 .. 8 -> BOOLEAN], z \in (IF full THEN BOOLEAN ELSE {seed % 2 = 0}), r \in (IF full THEN BOOLEAN ELSE {seed % 2 = 1})}
+       \* unsorted files with many blocks
+    [] fam = "unsorted"    -> {<<k>> : k \in 1 .. 5}
        \* a small family on which every Bug variant of PbfFormatCache must violate NoInherit (non-vacuity probes)
     [] fam = "probe"       -> {<<1, ab[1], ab[2]>> : ab \in DenseEdgeC \X DenseEdgeC} \cup {<<2, k, 0>> : k \in 1 .. 4}
 
@@ -213,6 +232,7 @@ FamBuild(fam, full, seed, x) ==
              rts  |-> OptF(f[6], IF f[7] THEN 0 ELSE 9), rseq |-> OptF(f[7], IF f[6] THEN 12 ELSE 0), rurl |-> OptF(f[8], 7),
              zlib |-> x[2], rev |-> x[3]],
             << Block(1, DefaultParams, TRUE, FALSE, <<DenseG(1, 1, [info |-> FALSE, cols |-> {}, kv |-> FALSE], <<0>>)>>) >>))
+    [] fam = "unsorted" -> Case("unsorted", <<1, 2, 3, 16>>, UnsortedFile(x[1], seed))
     [] fam = "probe" ->
          IF x[1] = 1
          THEN Case("probe", <<1>>, File(DefaultHeader,
@@ -223,7 +243,7 @@ FamBuild(fam, full, seed, x) ==
                      [] x[2] = 3 -> TwoIn("group", DefaultParams, TRUE, RelsG, RelO(AllInfo, 2, 3, FALSE), RelO(NoInfo, 0, 2, FALSE))
                      [] x[2] = 4 -> << Block(1, ParamList[5], TRUE, FALSE, MixedGroups(1)), Block(2, DefaultParams, TRUE, FALSE, MixedGroups(2)) >>))
 
-FamilyNames == {"densepair", "densegroups", "spaced", "waypair", "relpair", "bodies", "params", "shapes", "header"}
+FamilyNames == {"densepair", "densegroups", "spaced", "waypair", "relpair", "bodies", "params", "shapes", "header", "unsorted"}
 Family(fam, full, seed) == {FamBuild(fam, full, seed, x) : x \in FamShapes(fam, full, seed)}
 
 (* --------------------------- C08: filter cases -------------------------- *)
@@ -293,4 +313,8 @@ FilterCases(full, seed) ==
                  : s \in Bool3, i \in (IF full THEN Bool3 ELSE {AllInst, <<FALSE, FALSE, FALSE>>}), a \in NamedPreds(Len(DecodeFile(bf[k])))}
               : k \in 1 .. Len(bf)}
   \cup PatternCases(full, seed)
+  \* unsorted many-block files under every skip combination (nodes after ways / relations must still be delivered)
+  \cup {FCase(UnsortedFile(k, seed), sk, i, a, <<1, 2, 3>>)
+         : k \in (IF full THEN 1 .. 5 ELSE {1, 3, 4}), sk \in Bool3, i \in {AllInst, <<FALSE, FALSE, FALSE>>},
+           a \in {SetSeq(1 .. 40), SetSeq({j \in 1 .. 40 : j % 2 = 0})}}
 =============================================================================
